@@ -22,6 +22,27 @@ type capData struct {
 	effective, permitted, inheritable uint32
 }
 
+const capDacReadSearch = 2
+
+// setReadCaps: CAP_DAC_OVERRIDE and CAP_DAC_READ_SEARCH together (without them a mode-0000 directory cannot be listed even by
+// uid 0: the walker sees what an unprivileged sender sees)
+func setReadCaps(on bool) error {
+	hdr := capHeader{version: capV3}
+	var data [2]capData
+	if _, _, e := syscall.RawSyscall(syscall.SYS_CAPGET, uintptr(unsafe.Pointer(&hdr)), uintptr(unsafe.Pointer(&data[0])), 0); e != 0 {
+		return fmt.Errorf("capget: %v", e)
+	}
+	if on {
+		data[0].effective |= 1<<capDacOverride | 1<<capDacReadSearch
+	} else {
+		data[0].effective &^= 1<<capDacOverride | 1<<capDacReadSearch
+	}
+	if _, _, e := syscall.AllThreadsSyscall(syscall.SYS_CAPSET, uintptr(unsafe.Pointer(&hdr)), uintptr(unsafe.Pointer(&data[0])), 0); e != 0 {
+		return fmt.Errorf("capset: %v", e)
+	}
+	return nil
+}
+
 func setDacOverride(on bool) error {
 	hdr := capHeader{version: capV3}
 	var data [2]capData
